@@ -91,6 +91,7 @@ def parseBuild (tok : String) : Option C16.Build :=
   | ["qs", _, _, _, x, s] => some (.text (unhex x) (toInt s))
   | ["s", x, s] => some (.text (unhex x) (toInt s))
   | ["c", f, t, s, s'] => some (.resize (toInt f) (toInt t) (toInt s) (toInt s'))
+  | ["qc", f, t, s, s'] => some (.resize (toInt f) (toInt t) (toInt s) (toInt s'))
   | ["d"] => some (.text [] (-1))
   | _ => none
 
@@ -151,7 +152,7 @@ def parseRouteToks (toks : List String) : RouteParse :=
     match fields t with
     | ["node", i, p, pat, own] => { r with nodes := r.nodes ++ [{ id := toNat i, parent := toInt p, pat := toNat pat, own := own == "1" }] }
     | ["redir", n, pat, tm] => { r with redirs := r.redirs ++ [(toNat n, toNat pat, unhex16 tm)] }
-    | ["mw", n, i, ok] => { r with mws := r.mws ++ [(toNat n, toNat i, ok == "1")] }
+    | ["mw", n, i, ok] => { r with mws := r.mws ++ [(toNat n, toNat i, ok == "1" || ok == "3")] }
     | ["req", x] => { r with raw := unhex x }
     | ["noroot"] => { r with noroot := true }
     | ["unsetlate"] => { r with noroot := true }     -- the handler in force at headersParsed time decides
